@@ -47,4 +47,59 @@ func init() {
 		Variant{Name: "skip-list entry with a namespace (C16 view)", Property: "C16", File: refl,
 			Old: "\t\tenums.EVENT_TYPE_TIMER_STARTED:                       {},\n", New: "\t\tenums.EVENT_TYPE_TIMER_STARTED:                       {},\n\t\tenums.EVENT_TYPE_SIGNAL_EXTERNAL_WORKFLOW_EXECUTION_INITIATED: {},\n", Expect: "O16.1c"},
 	)
+	// ---- C15
+	adm := "proxy/adminservice.go"
+	pol := "auth/policy.go"
+	addVariants(
+		Variant{Name: "remote-facing configuration built without aclPolicy", Property: "C15", File: cc,
+			Old: "\t\taclPolicy:         connConfig.ACLPolicy,\n", New: "", Expect: "O15.1"},
+		Variant{Name: "mux branch rebuilds the configuration without the policy", Property: "C15", File: cc,
+			Old: "\t\tgrpcServer, err := buildProxyServer(c, encryption.TLSConfig{}, observer.ReportStreamValue, lifetime)", New: "\t\tc.aclPolicy = nil\n\t\tgrpcServer, err := buildProxyServer(c, encryption.TLSConfig{}, observer.ReportStreamValue, lifetime)", Expect: "O15.1"},
+		Variant{Name: "stream interceptor of the ACL not installed", Property: "C15", File: cc,
+			Old: "\t\tstreamInterceptors = append(streamInterceptors, aclInterceptor.StreamIntercept)\n", New: "", Expect: "O15.2"},
+		Variant{Name: "allow-lists swapped in the constructor", Property: "C15", File: acl,
+			Old: "\tadminServiceAccess = auth.NewAccesControl(adminServiceAllowedMethods)\n\tnamespaceAccess = auth.NewAccesControl(allowedNamespaces)", New: "\tadminServiceAccess = auth.NewAccesControl(allowedNamespaces)\n\tnamespaceAccess = auth.NewAccesControl(adminServiceAllowedMethods)", Expect: "O15.2"},
+		Variant{Name: "DeleteWorkflowExecution forwards to another client method", Property: "C15", File: adm,
+			Old: "\treturn s.adminClient.DeleteWorkflowExecution(ctx, in0)", New: "\t_, _ = s.adminClient.DescribeMutableState(ctx, nil)\n\treturn s.adminClient.DeleteWorkflowExecution(ctx, in0)", Expect: "O15.5"},
+		Variant{Name: "misspelt deny-list entry", Property: "C15", File: pol,
+			Old: "\t\t\"RegisterNamespace\",", New: "\t\t\"RegisterNamespaces\",", Expect: "O15.6"},
+		Variant{Name: "stream interceptor only logs a disallowed method", Property: "C15", File: acl,
+			Old: "\t\tif !i.adminServiceAccess.IsAllowed(methodName) {\n\t\t\treturn status.Errorf(codes.PermissionDenied, \"Calling method %s is not allowed.\", methodName)\n\t\t}\n\t}\n\n\treturn handler(service, serverStream)", New: "\t\tif !i.adminServiceAccess.IsAllowed(methodName) {\n\t\t\ti.logger.Warn(\"not allowed\")\n\t\t}\n\t}\n\n\treturn handler(service, serverStream)", Expect: "O15.3"},
+		Variant{Name: "admin allow-list consulted with the full method name", Property: "C15", File: acl,
+			Old: "\tif i.adminServiceAccess != nil && strings.HasPrefix(info.FullMethod, api.AdminServicePrefix) {\n\t\tmethodName := api.MethodName(info.FullMethod)\n\t\tif !i.adminServiceAccess.IsAllowed(methodName) {\n\t\t\treturn nil,", New: "\tif i.adminServiceAccess != nil && strings.HasPrefix(info.FullMethod, api.AdminServicePrefix) {\n\t\tmethodName := info.FullMethod\n\t\tif !i.adminServiceAccess.IsAllowed(methodName) {\n\t\t\treturn nil,", Expect: "O15.3"},
+		Variant{Name: "deny-list only enforced when an admin allow-list exists", Property: "C15", File: acl,
+			Old: "\tif strings.HasPrefix(info.FullMethod, api.WorkflowServicePrefix) {\n\t\tmethodName := api.MethodName(info.FullMethod)\n\t\tif !auth.IsAllowedWorkflowMigrationAPIs(methodName) {", New: "\tif i.adminServiceAccess != nil && strings.HasPrefix(info.FullMethod, api.WorkflowServicePrefix) {\n\t\tmethodName := api.MethodName(info.FullMethod)\n\t\tif !auth.IsAllowedWorkflowMigrationAPIs(methodName) {", Expect: "O15.3"},
+	)
+	// ---- C13
+	bim := "collect/bimap.go"
+	ccc := "config/cluster_conn_config.go"
+	trl := "interceptor/translator.go"
+	addVariants(
+		Variant{Name: "inbound server gets the map without Inverse()", Property: "C13", File: cc,
+			Old: "\t\tnsTranslations:    nsTranslations.Inverse(),\n", New: "\t\tnsTranslations:    nsTranslations,\n", Expect: "O13.1"},
+		Variant{Name: "outbound server gets the inverse map", Property: "C13", File: cc,
+			Old: "\t\tnsTranslations:    nsTranslations,\n\t\tsaTranslations:    saTranslations,\n", New: "\t\tnsTranslations:    nsTranslations.Inverse(),\n\t\tsaTranslations:    saTranslations,\n", Expect: "O13.1"},
+		Variant{Name: "request/response maps swapped in makeServerOptions", Property: "C13", File: cc,
+			Old: "\t\t\tc.nsTranslations.AsMap(), c.nsTranslations.Inverse().AsMap()))", New: "\t\t\tc.nsTranslations.Inverse().AsMap(), c.nsTranslations.AsMap()))", Expect: "O13.1"},
+		Variant{Name: "sa maps: response map not inverted", Property: "C13", File: cc,
+			Old: "\t\t\tc.saTranslations.FlattenMaps(), c.saTranslations.Inverse().FlattenMaps()))", New: "\t\t\tc.saTranslations.FlattenMaps(), c.saTranslations.FlattenMaps()))", Expect: "O13.1"},
+		Variant{Name: "matchers swapped in the translator constructor", Property: "C13", File: trl,
+			Old: "\t\tmatchReq:    createStringMatcher(reqMap),\n\t\tmatchResp:   createStringMatcher(respMap),", New: "\t\tmatchReq:    createStringMatcher(respMap),\n\t\tmatchResp:   createStringMatcher(reqMap),", Expect: "O13.1"},
+		Variant{Name: "pairs yielded as (remote, local)", Property: "C13", File: ccc,
+			Old: "\t\t\tif !yield(mapping.Local, mapping.Remote) {", New: "\t\t\tif !yield(mapping.Remote, mapping.Local) {", Expect: "O13.1"},
+		Variant{Name: "prefix matching in the string matcher", Property: "C13", File: trl,
+			Old: "\t\tnewName, ok := mapping[name]\n\t\treturn newName, ok", New: "\t\tnewName, ok := mapping[name]\n\t\tif !ok {\n\t\t\tfor k, v := range mapping {\n\t\t\t\tif len(name) > len(k) && name[:len(k)] == k {\n\t\t\t\t\treturn v + name[len(k):], true\n\t\t\t\t}\n\t\t\t}\n\t\t}\n\t\treturn newName, ok", Expect: "O13.2"},
+		Variant{Name: "unconditional assignment of namespace strings", Property: "C13", File: refl,
+			Old: "\t\t\tnewName, ok := match(name)\n\t\t\tif !ok {\n\t\t\t\treturn visit.Continue, nil\n\t\t\t}\n\t\t\tif name != newName {", New: "\t\t\tnewName, ok := match(name)\n\t\t\tif name != newName {", Expect: "O13.3"},
+		Variant{Name: "blob always re-serialised", Property: "C13", File: refl,
+			Old: "\tif matched || changed {\n\t\tblob, err = serializer.SerializeEvents(events)\n\t}", New: "\tblob, err = serializer.SerializeEvents(events)", Expect: "O13.3"},
+		Variant{Name: "extra write into a visited message", Property: "C13", File: refl,
+			Old: "\t\t\tif info.Name != newName {\n\t\t\t\tinfo.Name = newName\n\t\t\t}", New: "\t\t\tif info.Name != newName {\n\t\t\t\tinfo.Name = newName\n\t\t\t\tinfo.Description = \"\"\n\t\t\t}", Expect: "O13.3"},
+		Variant{Name: "duplicate-value test dropped from the bimap", Property: "C13", File: bim,
+			Old: "\t\tif existing, ok := backward.contents[val]; ok {\n\t\t\t// Can't get the existing value without iterating the backward map! Rely on the forward map\n\t\t\treturn nil, ConflictError[V]{true, val, forward.contents[existing]}\n\t\t}\n", New: "", Expect: "O13.4"},
+		Variant{Name: "bimap error ignored in NewClusterConnection", Property: "C13", File: cc,
+			Old: "\tnsTranslations, err := connConfig.NamespaceTranslation.AsLocalToRemoteBiMap()\n\tif err != nil {\n\t\treturn nil, err\n\t}", New: "\tnsTranslations, err := connConfig.NamespaceTranslation.AsLocalToRemoteBiMap()\n\tif err != nil {\n\t\tcc.loggers.Get(LogClusterConnection).Warn(\"bad mapping\")\n\t}", Expect: "O13.4"},
+		Variant{Name: "bypass header no longer bypasses", Property: "C13", File: tri,
+			Old: "\tif common.IsRequestTranslationDisabled(ctx) || len(i.translators) == 0 ||", New: "\tif len(i.translators) == 0 ||", Expect: "O13.5"},
+	)
 }
